@@ -46,7 +46,8 @@ ApplyEdit(pool, e) ==
       [] e.kind = "editresult" -> pool
 
 \* ---- the verdict on one recorded step ---------------------------------------------------------------
-\* o: [step, pool (read immediately before the step = the reading after the previous one), pool_after, out (calls only)]
+\* o: [step, pool (read immediately before the step = the reading after the previous one), pool_after, out (calls only),
+\*     ka / ka_after: the caller's key-list objects (lcols / rcols arguments, kept and reused for the whole session) before and after a call]
 StepVerdict(o) ==
     LET s == o.step  pool == o.pool IN
     IF s.kind = "call" THEN
@@ -54,6 +55,7 @@ StepVerdict(o) ==
         ELSE IF o.out.kind = "timeout" THEN "does_not_terminate"
         ELSE IF o.pool_after[s.l] # pool[s.l] \/ o.pool_after[s.r] # pool[s.r] THEN "operand_changed"
         ELSE IF o.pool_after # pool THEN "bystander_changed"
+        ELSE IF "ka" \in DOMAIN o /\ o.ka_after # o.ka THEN "argument_changed"      \* the caller's key lists (one object per key specification, reused)
         ELSE CallVerdict(s.op, pool[s.l], pool[s.r], s.lk, s.rk, s.mode, o.out)
     ELSE IF s.kind = "editresult" THEN (IF o.pool_after # pool THEN "result_aliases_operand" ELSE "")
     ELSE IF o.pool_after # ApplyEdit(pool, s) THEN "caller_edit_not_local"
